@@ -1,5 +1,18 @@
 """C13 -- fluent programs denote the arrays NumPy would compute, batched or not.
 
+Streams of one run: the batching sweep, random programs (DAGs: earlier results are used again), malformed
+programs, SESSIONS (what a script does: several calls of the same methods on the same actions, arguments
+left to their defaults, ONE options dict / Payload / criteria dict kept in a variable and handed to several
+calls; every result is checked, after the whole program was built), a small exhaustive scope of call PAIRS
+(same method twice with two different values of one argument; one options object for two calls), and
+programs of backend functions whose VALUES the Coq model computes itself (Fluent/ActionSem.v).
+Internal arrays have 0-3 dimensions (square, non-square, size-1 axes); every axis-like argument (stack/flatten
+axis, expand internal dimension, positions taken, node axis of expand/transform) runs over its whole valid
+range from the front AND from the back, the internal dimension of xarray payloads also by name.
+Before each case the mutable default arguments of the modules under test are put back to their import-time
+content, so that a stored case replays in a fresh process; state carried from call to call is looked for
+inside a case.
+
 Real code driven: earthkit.workflows.fluent (from_source, Action.map/reduce/sum/.../mean/std,
 stack/concatenate/flatten, expand, select/iselect, broadcast, join, arithmetic, transform)
 and the real backends (array-API path on numpy arrays, xarray path on DataArrays).
@@ -28,9 +41,12 @@ from common import cN, cZ, cbool, clist, cnat, copt, coq_print, coq_results, cst
 
 TRUSTED = [
     "harness/c13.py: NumPy reference semantics of each fluent operation on stacked arrays (the property's right-hand side), the graph interpreter, Python object -> node-table numbering",
+    "harness/c13.py: reset of the mutable default arguments of fluent/backends functions before each case (a case = a fresh process); flat row-major data -> nested arrays (Fluent/ActionSemCheck.v ti/unflat)",
     "floating point: values are integer-valued float64 arrays; mean/std/divide/pow compared with rtol 1e-9 / atol 1e-6 (rounding is outside the model)",
 ]
 ASSUMPTIONS = [
+    "values (C13_take_value ... C13_expand_then_stack_values): the callables the fluent layer itself puts into nodes (take, stack, concat, sum/prod/min/max/mean, add/subtract/multiply/divide/pow, trivial) are interpreted by the exact tensor semantics of Backends/Tensor.v + Ops.v on numpy payloads; this interpretation is compared with the evaluation of the real graph on every run (stream sem: integer data, |v| < 2^52, exact) -- user callables, xarray payloads and non-integer results are compared with NumPy by the oracle only",
+    "a call depends only on its instruction and operands (C13_call_ignores_other_results is a theorem of the functional model); that the implementation has no call-to-call state is what the session / pair streams test, it is not proved about Python",
     "Section hypothesis batch_law (ActionProofs): for a callable marked batchable, f applied to the per-batch results (singleton batches passed through, at least two batches) equals f applied to all arguments -- proved for the backends' marked functions by C15; instantiated here on a field for sum (Batch.sum_batch_law)",
     "mean/std over an abstract field with Leibniz equality (field_theory as hypothesis; for std additionally: every count n > 0 is non-zero in the field, sqrt uninterpreted, the array does not use the helper name **datatype**); arrays are treated pointwise; instantiated on Qc",
     "a node computes payload.func(*args, **kwargs) with input names replaced by the producers' values (C10 proves the lowering does that); expression trees ignore node names (C14)",
@@ -40,7 +56,7 @@ ASSUMPTIONS = [
 ]
 
 HEADER = """From Coq Require Import List String Bool Arith NArith ZArith.
-From EKW Require Import Fluent.XArr Fluent.Action Fluent.ActionCheck.
+From EKW Require Import Fluent.XArr Fluent.Action Fluent.ActionCheck Fluent.ActionSem Fluent.ActionSemCheck.
 Import ListNotations.
 Open Scope string_scope.
 Open Scope list_scope.
@@ -125,6 +141,7 @@ class Ref:
     def __init__(self, dims, coords, scal, data, indexed=None):
         self.dims, self.coords, self.scal, self.data = list(dims), dict(coords), dict(scal), data
         self.indexed = dict(indexed) if indexed is not None else {d: True for d in dims}
+        self.inames = None        # names of the internal dimensions (xarray payloads); set by ref_step
 
     @property
     def nn(self):
@@ -204,6 +221,29 @@ def ref_reduce(r, fname, kw, d, keep):
 
 
 def ref_step(env, ins, seed, kind):
+    """reference result of one instruction; also tracks the NAMES of the internal dimensions (the
+    xarray payloads are addressed by name as well as by position)"""
+    r = ref_step0(env, ins, seed, kind)
+    if ins["op"] == "source":
+        r.inames = [f"i{j}" for j in range(len(ins["ishape"]))]
+    elif r.inames is None:
+        r.inames = list(env[ins["a"]].inames)
+    return r
+
+
+def norm_internal(iax, inames, ni, kind):
+    """position of the internal dimension an expand addresses: an int (negative = from the back, what
+    np.take / list indexing accept) or, for xarray payloads, the dimension's name"""
+    if isinstance(iax, str):
+        if kind != "xarray" or iax not in inames:
+            raise Invalid()
+        return inames.index(iax)
+    if not (-ni <= iax < ni):
+        raise Invalid()
+    return iax % ni
+
+
+def ref_step0(env, ins, seed, kind):
     op = ins["op"]
     if op == "source":
         dims = [d for d, _ in ins["dims"]]
@@ -243,22 +283,38 @@ def ref_step(env, ins, seed, kind):
             raise Invalid()
         if name in a.dims or name in a.scal or not idxs:
             raise Invalid()
-        iax = ins["internal"]
         ni = len(a.ishape)
-        if not (0 <= iax < ni) or any(not (0 <= i < a.ishape[iax]) for i in idxs):
+        if ni == 0:
+            raise Invalid()
+        iax = norm_internal(ins["internal"], a.inames, ni, kind)
+        m = a.ishape[iax]
+
+        def okidx(i):          # a position, from the front or from the back; or a non-empty list of positions
+            if isinstance(i, list):
+                return bool(i) and all(isinstance(j, int) and -m <= j < m for j in i)
+            return isinstance(i, int) and -m <= i < m
+        if not all(okidx(i) for i in idxs):
             raise Invalid()
         pos = axis if axis >= 0 else axis + a.nn + 1
         if not (0 <= pos <= a.nn):
             raise Invalid()
-        taken = np.take(a.data, idxs, axis=a.nn + iax)
+        keepi = any(isinstance(i, list) for i in idxs)
+        if keepi and (not all(isinstance(i, list) for i in idxs) or len({len(i) for i in idxs}) != 1):
+            raise Invalid()
+        # a list of positions per node keeps the internal dimension (with the list's length), one position drops it
+        outs = [np.take(a.data, i, axis=a.nn + iax) for i in idxs]
         labels = list(vals) if vals is not None else list(range(len(idxs)))
+        inames = list(a.inames) if keepi else [x for j, x in enumerate(a.inames) if j != iax]
         if len(idxs) == 1:
-            out = np.take(taken, 0, axis=a.nn + iax)
-            return Ref(a.dims, a.coords, {**a.scal, name: labels[0]}, out, a.indexed)
-        out = np.moveaxis(taken, a.nn + iax, pos)
+            res = Ref(a.dims, a.coords, {**a.scal, name: labels[0]}, outs[0], a.indexed)
+            res.inames = inames
+            return res
+        out = np.stack(outs, axis=pos)
         dims = list(a.dims)
         dims.insert(pos, name)
-        return Ref(dims, {**a.coords, name: labels}, a.scal, out, {**a.indexed, name: True})
+        res = Ref(dims, {**a.coords, name: labels}, a.scal, out, {**a.indexed, name: True})
+        res.inames = inames
+        return res
     if op in ("select", "iselect"):
         r = Ref(a.dims, a.coords, a.scal, a.data, a.indexed)
         for key, v in ins["crit"]:
@@ -448,9 +504,68 @@ def ref_step(env, ins, seed, kind):
 
 
 # ----------------------------------------------------------------------------- real implementation
-def impl_step(env, ins, seed, kind, reg):
+# How the caller hands over keyword-argument dictionaries / payload objects (ins["kwm"]):
+#   "fresh"   a new dict for this call (the only mode the first version of this harness had)
+#   "default" the argument is left out: the method's own default is used (only when nothing is to be passed)
+#   "shared"  ONE caller-owned object, created once per case from the declared content, handed to every call of
+#             the case that declares the same content (what a script does that keeps its options in a variable)
+# ins["omit"]: every argument that has its documented default value is left out of the call.
+# The reference and the Coq model always see the DECLARED content: a call must behave as documented whatever was
+# called before it in the same process and whoever else holds the same options object.
+DEFAULTS = {"dim": "", "batch_size": 0, "keep_dim": False, "axis": 0, "drop": False, "match_coord_values": False,
+            "exclude": None}
+
+
+def shared_obj(shared, tag, content, make):
+    key = tag + ":" + json.dumps(content, sort_keys=True, default=str)
+    if key not in shared:
+        shared[key] = make()
+    return shared[key]
+
+
+def call_args(ins, shared, **given):
+    """keyword arguments of the real call: documented defaults dropped under ins['omit'], backend_kwargs per ins['kwm']"""
+    out = {}
+    for k, v in given.items():
+        if ins.get("omit") and k in DEFAULTS and v == DEFAULTS[k] and type(v) is type(DEFAULTS[k]):
+            continue
+        out[k] = v
+    return out
+
+
+def with_bkw(args, ins, shared):
+    kw = dict(ins.get("kw", {}))
+    mode = ins.get("kwm", "fresh")
+    if mode == "default" and not kw:
+        return args
+    if mode == "shared":
+        args["backend_kwargs"] = shared_obj(shared, "kw", kw, lambda: dict(kw))
+    else:
+        args["backend_kwargs"] = kw
+    return args
+
+
+def payload_of(ins, shared, table):
+    from earthkit.workflows.fluent import Payload
+    kw = dict(ins.get("kw", {}))
+    f = table[ins["f"]]
+    if ins.get("kwm") == "shared":
+        # the same Payload OBJECT for every map/reduce of the case with this function and these kwargs
+        return shared_obj(shared, "payload:" + ins["f"], kw, lambda: Payload(f, kwargs=dict(kw)) if kw else Payload(f))
+    return Payload(f, kwargs=kw) if kw else f
+
+
+def criteria_of(ins, shared):
+    crit = {k: v for k, v in ins["crit"]}
+    if ins.get("kwm") == "shared":
+        return shared_obj(shared, "crit", ins["crit"], lambda: crit)
+    return crit
+
+
+def impl_step(env, ins, seed, kind, reg, shared=None):
     from earthkit.workflows import backends, fluent
     from earthkit.workflows.fluent import Payload
+    shared = {} if shared is None else shared
     op = ins["op"]
     if op == "source":
         shape = [len(c) for _, c in ins["dims"]]
@@ -459,7 +574,6 @@ def impl_step(env, ins, seed, kind, reg):
             arr[idx] = make_src(ins["base"] + k, ins["ishape"], seed, kind)
         return fluent.from_source(arr, dims=[d for d, _ in ins["dims"]], coords={d: list(c) for d, c in ins["dims"]})
     a = env[ins["a"]]
-    kw = dict(ins.get("kw", {}))
     red = dict(dim=ins.get("d", ""), batch_size=ins.get("bs", 0), keep_dim=ins.get("keep", False))
     if ins.get("keep") and op in ("reduce", "named", "mean", "std", "stack", "concat"):
         d = ins.get("d") or (str(a.nodes.dims[0]) if a.nodes.dims else "")
@@ -469,37 +583,41 @@ def impl_step(env, ins, seed, kind, reg):
             reg[f"{c[0]}-{c[-1]}"] = ("kept", first, last)
             reg[f"{c.values[0]}-{c.values[-1]}"] = ("kept", first, last)
     if op == "map":
-        return a.map(Payload(MAPF[ins["f"]], kwargs=kw) if kw else MAPF[ins["f"]])
+        return a.map(payload_of(ins, shared, MAPF))
     if op == "reduce":
-        return a.reduce(Payload(REDF[ins["f"]], kwargs=kw) if kw else REDF[ins["f"]], **red)
+        return a.reduce(payload_of(ins, shared, REDF), **call_args(ins, shared, **red))
     if op == "named":
-        return getattr(a, ins["n"])(backend_kwargs=kw, **red)
+        return getattr(a, ins["n"])(**with_bkw(call_args(ins, shared, **red), ins, shared))
     if op in ("mean", "std"):
-        return getattr(a, op)(backend_kwargs=kw, **red)
+        return getattr(a, op)(**with_bkw(call_args(ins, shared, **red), ins, shared))
     if op == "stack":
-        return a.stack(ins["d"], batch_size=red["batch_size"], keep_dim=red["keep_dim"], axis=ins.get("axis", 0), backend_kwargs=kw)
+        args = call_args(ins, shared, batch_size=red["batch_size"], keep_dim=red["keep_dim"], axis=ins.get("axis", 0))
+        return a.stack(ins["d"], **with_bkw(args, ins, shared))
     if op == "concat":
-        return a.concatenate(ins["d"], batch_size=red["batch_size"], keep_dim=red["keep_dim"], backend_kwargs=kw)
+        args = call_args(ins, shared, batch_size=red["batch_size"], keep_dim=red["keep_dim"])
+        return a.concatenate(ins["d"], **with_bkw(args, ins, shared))
     if op == "flatten":
-        return a.flatten(ins["d"], axis=ins.get("axis", 0), backend_kwargs=kw)
+        args = call_args(ins, shared, dim=ins["d"], axis=ins.get("axis", 0))
+        return a.flatten(**with_bkw(args, ins, shared))
     if op == "expand":
         dim = ins["name"] if ins.get("vals") is None else (ins["name"], list(ins["vals"]))
+        args = with_bkw(call_args(ins, shared, axis=ins["axis"]), ins, shared)
         if ins.get("idxs") is None:
-            return a.expand(dim, ins["internal"], ins["size"], axis=ins["axis"], backend_kwargs=kw)
-        return a.expand(dim, (ins["internal"], list(ins["idxs"])), axis=ins["axis"], backend_kwargs=kw)
+            return a.expand(dim, ins["internal"], ins["size"], **args)
+        return a.expand(dim, (ins["internal"], [list(i) if isinstance(i, list) else i for i in ins["idxs"]]), **args)
     if op == "select":
-        return a.select({k: v for k, v in ins["crit"]}, drop=ins.get("drop", False))
+        return a.select(criteria_of(ins, shared), **call_args(ins, shared, drop=ins.get("drop", False)))
     if op == "iselect":
-        return a.iselect({k: v for k, v in ins["crit"]}, drop=ins.get("drop", False))
+        return a.iselect(criteria_of(ins, shared), **call_args(ins, shared, drop=ins.get("drop", False)))
     if op == "broadcast":
-        return a.broadcast(env[ins["b"]], exclude=ins.get("excl"))
+        return a.broadcast(env[ins["b"]], **call_args(ins, shared, exclude=ins.get("excl")))
     if op == "join":
         dim = ins["name"] if ins.get("given") is None else (ins["name"], list(ins["given"]))
-        return a.join(copy_action(env[ins["b"]]), dim, match_coord_values=ins.get("matchc", False))
+        return a.join(copy_action(env[ins["b"]]), dim, **call_args(ins, shared, match_coord_values=ins.get("matchc", False)))
     if op == "binA":
-        return getattr(a, {"pow": "power"}.get(ins["f"], ins["f"]))(copy_action(env[ins["b"]]), backend_kwargs=kw)
+        return getattr(a, {"pow": "power"}.get(ins["f"], ins["f"]))(copy_action(env[ins["b"]]), **with_bkw({}, ins, shared))
     if op == "binC":
-        return getattr(a, {"pow": "power"}.get(ins["f"], ins["f"]))(ins["c"], backend_kwargs=kw)
+        return getattr(a, {"pow": "power"}.get(ins["f"], ins["f"]))(ins["c"], **with_bkw({}, ins, shared))
     if op == "bround":
         d, bs = ins["d"], ins["bs"]
         lst = a.nodes.coords[d].data
@@ -507,12 +625,72 @@ def impl_step(env, ins, seed, kind, reg):
         return a.transform(fluent._batch_transform, [({d: lst[i:i + bs]}, pay) for i in range(0, len(lst), bs)], ins["name"])
     if op == "transform":
         dim = ins["name"] if ins.get("vals") is None else (ins["name"], list(ins["vals"]))
+        targs = call_args(ins, shared, axis=ins["axis"])
         if ins["body"] == "map":
             f = TF[ins["f"]]
-            return a.transform(lambda act, p: act.map(Payload(f, ("input0", p))), [(p,) for p in ins["params"]], dim, axis=ins["axis"])
+            return a.transform(lambda act, p: act.map(Payload(f, ("input0", p))), [(p,) for p in ins["params"]], dim, **targs)
         d = ins["d"]
-        return a.transform(lambda act, p: act.select({d: p}, drop=True), [(p,) for p in ins["params"]], dim, axis=ins["axis"])
+        return a.transform(lambda act, p: act.select({d: p}, drop=True), [(p,) for p in ins["params"]], dim, **targs)
     raise ValueError(op)
+
+
+# ----------------------------------------------------------------------------- one case = one fresh process
+# A case must mean the same whatever ran before it in this process (otherwise its replay file would not reproduce it).
+# The state a Python library can silently carry from call to call without any global statement is the MUTABLE DEFAULT
+# ARGUMENT: every dict/list/set default of the functions and methods of the modules under test is snapshotted at first
+# use and put back (in place) before each case.  State leaking from call to call is then looked for where it can be
+# replayed: INSIDE a case (several calls of the same methods in one program, see gen_session).
+_PRISTINE = None
+LEAKS = {}
+
+
+def _default_objects():
+    import importlib
+    import types
+    out, seen = [], set()
+
+    def visit(fn, where):
+        objs = list(fn.__defaults__ or ()) + list((fn.__kwdefaults__ or {}).values())
+        for o in objs:
+            if isinstance(o, (dict, list, set)) and id(o) not in seen:
+                seen.add(id(o))
+                out.append((where, o))
+    for mname in ("earthkit.workflows.fluent", "earthkit.workflows.backends", "earthkit.workflows.backends.arrayapi",
+                  "earthkit.workflows.backends.xarray"):
+        try:
+            mod = importlib.import_module(mname)
+        except Exception:
+            continue
+        for name, obj in list(vars(mod).items()):
+            if isinstance(obj, types.FunctionType):
+                visit(obj, f"{mname}.{name}")
+            elif isinstance(obj, type) and str(getattr(obj, "__module__", "")).startswith("earthkit.workflows"):
+                for n2, o2 in list(vars(obj).items()):
+                    f = o2.__func__ if isinstance(o2, (staticmethod, classmethod)) else o2
+                    if isinstance(f, types.FunctionType):
+                        visit(f, f"{mname}.{name}.{n2}")
+    return out
+
+
+def reset_process_state():
+    """put every mutable default argument back to its import-time content; -> names of the functions whose default had changed"""
+    global _PRISTINE
+    import copy
+    if _PRISTINE is None:
+        _PRISTINE = [(w, o, copy.deepcopy(o)) for w, o in _default_objects()]
+        return []
+    leaked = []
+    for w, o, p in _PRISTINE:
+        if o != p:
+            leaked.append(w)
+            if isinstance(o, list):
+                o[:] = copy.deepcopy(p)
+            else:
+                o.clear()
+                o.update(copy.deepcopy(p))
+    for w in leaked:
+        LEAKS[w] = LEAKS.get(w, 0) + 1
+    return leaked
 
 
 def copy_action(act):
@@ -558,8 +736,8 @@ def evaluate(node, memo):
     return out
 
 
-def observe(act, reg):
-    """dims, scalar coords, cell ids, node table of the real Action.nodes"""
+def observe(act, reg, table=True):
+    """dims, scalar coords, cell ids, node table of the real Action.nodes (table=False: dims and coordinates only)"""
     nodes = act.nodes
     dims = []
     for d in nodes.dims:
@@ -567,6 +745,8 @@ def observe(act, reg):
         cs = [canon(x, reg) for x in nodes.coords[d].values.tolist()] if ix else list(range(nodes.sizes[d]))
         dims.append((str(d), cs, ix))
     scal = sorted((str(k), canon(v.values.tolist(), reg)) for k, v in nodes.coords.items() if k not in nodes.dims)
+    if not table:
+        return {"dims": dims, "scal": scal, "cells": None, "table": None, "graph_missing": []}
     table, ids = [], {}
 
     def visit(n):
@@ -616,65 +796,95 @@ def close(got, exp):
     return bool(np.all(ok))
 
 
-def run_case(case):
-    """-> dict(ref=Ref|None, obs=dict|None, err=str|None, value_fail=str|None)"""
-    seed, kind = case["seed"], case.get("kind", "numpy")
-    prog = case["prog"]
-    refs, ref_ok = [], True
-    try:
-        for ins in prog:
-            refs.append(ref_step(refs, ins, seed, kind))
-    except Invalid:
-        ref_ok = False
-    reg = {}
-    env, err = [], None
-    try:
-        for ins in prog:
-            env.append(impl_step(env, ins, seed, kind, reg))
-    except Exception as e:
-        err = type(e).__name__
-        errmsg = repr(e)[:300]
-    out = {"ref_ok": ref_ok, "err": err, "obs": None, "fail": None}
-    if err is not None:
-        if ref_ok:
-            out["fail"] = ("raises", f"valid program raised {errmsg} at instruction {len(env)} ({prog[len(env)]['op']})", len(env))
-        return out
-    act = env[-1]
-    obs = observe(act, reg)
-    out["obs"] = obs
-    if not ref_ok:
-        return out
-    r = refs[-1]
-    # --- the property, read directly
+def check_entry(act, r, obs, reg, memo):
+    """the property read directly on ONE result: dimensions, coordinates, scalar coordinates, value at every coordinate"""
     if [d[0] for d in obs["dims"]] != r.dims:
-        out["fail"] = ("dims", f"dimensions {[d[0] for d in obs['dims']]} != documented {r.dims}")
-        return out
+        return ("dims", f"dimensions {[d[0] for d in obs['dims']]} != documented {r.dims}")
     for name, cs, ix in obs["dims"]:
         want = [canon(x, reg) for x in r.coords[name]]
         if cs != want:
-            out["fail"] = ("coords", f"coordinates of {name}: {cs} != {want}")
-            return out
+            return ("coords", f"coordinates of {name}: {cs} != {want}")
     if dict(obs["scal"]) != {k: canon(v, reg) for k, v in r.scal.items()}:
-        out["fail"] = ("scalar-coords", f"scalar coordinates {obs['scal']} != {sorted(r.scal.items())}")
-        return out
+        return ("scalar-coords", f"scalar coordinates {obs['scal']} != {sorted(r.scal.items())}")
     if obs["graph_missing"]:
-        out["fail"] = ("graph", f"Action.graph() lacks the nodes of cells {obs['graph_missing'][:5]}")
-        return out
-    memo = {}
+        return ("graph", f"Action.graph() lacks the nodes of cells {obs['graph_missing'][:5]}")
     flat = act.nodes.data.flatten()
     shape = act.nodes.shape
     for pos, idx in enumerate(np.ndindex(*shape)):
         try:
             got = evaluate(flat[pos], memo)
         except Exception as e:
-            out["fail"] = ("eval-raises", f"evaluating the node at {idx} raised {e!r}"[:300])
-            return out
+            return ("eval-raises", f"evaluating the node at {idx} raised {e!r}"[:300])
         exp = r.data[idx]
         if not close(got, exp):
             labels = {d: r.coords[d][i] for d, i in zip(r.dims, idx)}
-            out["fail"] = ("value", f"value at {labels} is {np.asarray(getattr(got, 'values', got)).tolist()!r}, NumPy gives {exp.tolist()!r}"[:400])
-            return out
+            return ("value", f"value at {labels} is {np.asarray(getattr(got, 'values', got)).tolist()!r}, NumPy gives {exp.tolist()!r}"[:400])
+    return None
+
+
+def run_case(case):
+    """-> dict(ref_ok, err, obs (of the last result), all_obs (sessions: of every result), fail)
+
+    EVERY result of the program (not only the last) is held against the reference, and only after the whole program
+    has been built: an operation that spoils an earlier result, its operand or an options object is seen as well."""
+    seed, kind = case["seed"], case.get("kind", "numpy")
+    prog = case["prog"]
+    leaked = reset_process_state()
+    refs, ref_ok = [], True
+    try:
+        for ins in prog:
+            refs.append(ref_step(refs, ins, seed, kind))
+    except Invalid:
+        ref_ok = False
+    reg, shared = {}, {}
+    env, err = [], None
+    try:
+        for ins in prog:
+            env.append(impl_step(env, ins, seed, kind, reg, shared))
+    except Exception as e:
+        err = type(e).__name__
+        errmsg = repr(e)[:300]
+    out = {"ref_ok": ref_ok, "err": err, "obs": None, "all_obs": None, "fail": None, "leaked": leaked}
+    if err is not None and (ref_ok or len(env) < len(refs)):
+        out["fail"] = ("raises", f"valid program raised {errmsg} at instruction {len(env)} ({prog[len(env)]['op']})", len(env))
+        return out
+    want_table = not case.get("nocoq")
+    every = bool(case.get("session")) and want_table
+    memo, all_obs = {}, []
+    n = min(len(refs), len(env))
+    for j in range(len(env)):
+        last = j == len(env) - 1
+        if prog[j]["op"] == "source" and not last:
+            obs = observe(env[j], reg, table=False)
+        else:
+            obs = observe(env[j], reg, table=want_table and ((last and err is None) or every))
+        if last and err is None:
+            out["obs"] = obs
+        if every and prog[j]["op"] != "source":
+            all_obs.append((j, obs))
+        if j < n and out["fail"] is None:
+            f = check_entry(env[j], refs[j], obs, reg, memo)
+            if f is not None:
+                out["fail"] = (f[0], f[1] + (f" [result {j} of {len(prog)}: {prog[j]['op']}]" if not last else ""), j)
+    if every and err is None:
+        out["all_obs"] = all_obs
+    if case.get("sem") and err is None:
+        out["values"] = exact_values(env[-1], memo)
     return out
+
+
+def exact_values(act, memo):
+    """("ok", [(shape, flat ints)] per cell, row-major) | ("raises", cell number, exception class) | ("inexact",)"""
+    vals = []
+    for pos, node in enumerate(act.nodes.data.flatten()):
+        try:
+            v = np.asarray(evaluate(node, memo), dtype=float)
+        except Exception as e:
+            return ("raises", pos, type(e).__name__)
+        if not np.all(np.isfinite(v)) or np.any(v != np.round(v)) or np.any(np.abs(v) >= 2.0 ** 52):
+            return ("inexact",)
+        vals.append((list(v.shape), [int(x) for x in v.reshape(-1).tolist()]))
+    return ("ok", vals)
 
 
 # ----------------------------------------------------------------------------- Coq terms
@@ -772,13 +982,41 @@ def cobs(obs):
 
 def ccase(case, out):
     prog = clist([cinstr(i) for i in case["prog"]])
+    if out.get("all_obs"):
+        exps = clist([f"({cnat(j)}, {cobs(o)})" for j, o in out["all_obs"]])
+        return f"CAll ({prog}, {exps})"
     exp = f"inl {cobs(out['obs'])}" if out["err"] is None else f"inr {cstr(out['err'])}"
-    return f"(({prog}, {exp}) : list instr * (observed + string))"
+    return f"CLast ({prog}, {exp})"
+
+
+def csources(case):
+    """the arrays the sources of the case compute, as Coq tensors (source number = position)"""
+    n = max(i["base"] + int(np.prod([len(c) for _, c in i["dims"]])) for i in case["prog"] if i["op"] == "source")
+    ish = [i["ishape"] for i in case["prog"] if i["op"] == "source"][0]
+    out = []
+    for k in range(n):
+        v = src_value(k, ish, case["seed"])
+        out.append(f"ti {clist([cnat(x) for x in v.shape])} {clist([cZ(int(x)) for x in v.reshape(-1).tolist()])}")
+    return clist(out)
+
+
+def cvalcase(case, values):
+    """CVal: program, source arrays, the values the real graph gave (or the first cell that raised and its exception class)"""
+    prog = clist([cinstr(i) for i in case["prog"]])
+    if values[0] == "raises":
+        exp = f"inr ({cnat(values[1])}, {cstr(values[2])})"
+    else:
+        exp = "inl " + clist([f"({clist([cnat(x) for x in sh])}, {clist([cZ(x) for x in flat])})" for sh, flat in values[1]])
+    return f"CVal ({prog}, {csources(case)}, {exp})"
 
 
 # ----------------------------------------------------------------------------- generator
 DIMNAMES = ["x", "y", "z", "t", "lev"]
-ISHAPES = [(2,), (3,), (2, 3), (2, 2), (3, 2)]
+# internal array shapes; the first three are also used for xarray payloads.  Square and non-square, a longer and a
+# shorter leading axis, size-1 axes, three internal dimensions, and 0-d payloads
+ISHAPES = [(2,), (3,), (2, 3), (2, 2), (3, 2), (3, 3), (2, 4), (1, 3), (2, 1), (2, 2, 2), (2, 3, 2), (3, 2, 2), (2, 2, 3), (4,), ()]
+XISHAPES = [(2,), (3,), (2, 3), (2, 2), (3, 2), (2, 3, 2), (3, 3)]
+KWOPS = ("named", "mean", "std", "stack", "concat", "flatten", "expand", "binA", "binC")
 
 
 def gen_coords(rng, n, style=None):
@@ -800,12 +1038,55 @@ class Gen:
         self.rng, self.seed, self.kind, self.malformed = rng, seed, kind, malformed
         self.prog, self.refs, self.tsz = [], [], []
         self.nsrc = 0
-        self.ishape = list(rng.choice(ISHAPES if kind == "numpy" else ISHAPES[:3]))
+        self.ishape = list(rng.choice(ISHAPES if kind == "numpy" else XISHAPES))
         self.fresh = 0
         self.bad_done = False
         self.made_bad = False
+        self.session = False      # several calls of the same methods on the same objects, every result checked
+        self.sem = False          # only operations whose VALUE the Coq model computes (backends on exact integers)
 
-    def push(self, ins, tsz):
+    def dress(self, ins):
+        """how the call is written: arguments left to their defaults, options objects fresh / shared / left out"""
+        rng = self.rng
+        op = ins["op"]
+        if self.sem or op in ("source", "bround"):
+            return
+        p = 0.6 if self.session else 0.35
+        if rng.random() < p:
+            ins["omit"] = True
+        if op in KWOPS or op in ("map", "reduce"):
+            has = bool(ins.get("kw"))
+            m = rng.random()
+            if op in ("map", "reduce"):
+                if m < (0.5 if self.session else 0.2):
+                    ins["kwm"] = "shared"
+            elif has:
+                ins["kwm"] = "shared" if m < 0.5 else "fresh"
+            else:
+                ins["kwm"] = "default" if m < 0.5 else ("shared" if m < 0.8 else "fresh")
+        if op in ("select", "iselect") and rng.random() < (0.5 if self.session else 0.2):
+            ins["kwm"] = "shared"
+
+    def again(self, cur):
+        """an earlier call of the session written once more, with the SAME options (one shared object), on another operand"""
+        rng = self.rng
+        cands = [j for j, i in enumerate(self.prog) if i["op"] in KWOPS + ("select", "iselect", "map", "reduce") and i.get("a") != cur]
+        if not cands:
+            return False
+        j = rng.choice(cands)
+        old = self.prog[j]
+        ins = {k: (list(v) if isinstance(v, list) else dict(v) if isinstance(v, dict) else v) for k, v in old.items()}
+        ins["a"] = cur
+        if "name" in ins:
+            ins["name"] = self.newname()
+        old["kwm"] = ins["kwm"] = "shared"
+        if ins["op"] in ("binA",):
+            return False
+        return self.push(ins, self.tsz[cur] * 4 + 1, dressed=True)
+
+    def push(self, ins, tsz, dressed=False):
+        if not dressed:
+            self.dress(ins)
         try:
             r = ref_step(self.refs, ins, self.seed, self.kind)
         except Invalid:
@@ -841,26 +1122,36 @@ class Gen:
 
     def kw_for(self, fname):
         rng = self.rng
-        if rng.random() < 0.75:
+        if self.sem or rng.random() < 0.75:
             return {}
         if fname in ("sum", "prod", "min", "max", "mean", "std"):
             return {"keepdims": False} if self.kind == "numpy" else {"skipna": True}
         return {}
 
-    def step(self):
+    def ops(self):
+        if self.sem:
+            return ["named", "named", "select", "iselect", "binC", "binA", "join", "broadcast", "transform", "bround",
+                    "stack", "stack", "concat", "flatten", "expand", "expand", "expand"]
+        ops = ["map", "named", "named", "reduce", "mean", "std", "select", "iselect", "binC", "binA", "join", "broadcast", "transform", "bround"]
+        if self.kind == "numpy":
+            ops += ["stack", "concat", "flatten", "expand", "expand"]
+        else:
+            ops += ["expand", "expand"]
+        return ops
+
+    def step(self, op=None, cur=None):
         rng = self.rng
-        cur = len(self.refs) - 1
+        if cur is None:
+            cur = len(self.refs) - 1
+            if cur > 0 and not self.malformed and rng.random() < 0.15:
+                cur = rng.randrange(cur + 1)      # an earlier result is used again (programs are DAGs, objects are reused)
         r = self.refs[cur]
         ts = self.tsz[cur]
         ncell = int(np.prod(r.data.shape[:r.nn])) if r.nn else 1
         bad = self.malformed and not self.bad_done and rng.random() < 0.4
         self.made_bad = False
-        ops = ["map", "named", "named", "reduce", "mean", "std", "select", "iselect", "binC", "binA", "join", "broadcast", "transform", "bround"]
-        if self.kind == "numpy":
-            ops += ["stack", "concat", "flatten", "expand", "expand"]
-        else:
-            ops += ["expand"]
-        op = rng.choice(ops)
+        if op is None:
+            op = rng.choice(self.ops())
         big = [d for d in r.dims if r.size(d) >= 2]
         if op in ("named", "reduce", "mean", "std", "stack", "concat", "flatten"):
             if not big:
@@ -871,6 +1162,8 @@ class Gen:
             keep = rng.random() < 0.35 and op != "flatten"
             dd = "" if (r.dims[0] == d and rng.random() < 0.3 and op not in ("stack", "concat")) else d
             ins = {"op": op, "a": cur, "d": dd, "bs": max(bs, 0), "keep": keep}
+            if self.sem:
+                ins["bs"] = ins["bs"] if op in ("named", "concat") else 0
             if op == "named":
                 ins["n"] = rng.choice(NAMED)
                 ins["kw"] = self.kw_for(ins["n"])
@@ -881,14 +1174,18 @@ class Gen:
             elif op in ("mean", "std"):
                 ins["kw"] = self.kw_for(op)
             elif op in ("stack", "flatten"):
-                ins["axis"] = rng.choice([0, 0, 1, -1, len(r.ishape)])
+                # every position np.stack accepts: -(ni+1) .. ni, from the front and from the back
+                ni = len(r.ishape)
+                ins["axis"] = rng.choice([0, 0, ni, -1] + list(range(-(ni + 1), ni + 1)))
                 if op == "stack" and not bad:
                     ins["bs"] = rng.choice([0, 1, n, n + 2])
             if bad:
                 self.made_bad = True
-                how = rng.choice(["baddim", "nonbatch"])
+                how = rng.choice(["baddim", "nonbatch"] + (["badaxis"] if op in ("stack", "flatten") else []))
                 if how == "baddim":
                     ins["d"] = "nosuch"
+                elif how == "badaxis":
+                    ins["axis"] = rng.choice([len(r.ishape) + 1, -(len(r.ishape) + 2)])     # builds; fails when the graph runs
                 elif op in ("stack",) or (op == "reduce" and not getattr(REDF[ins["f"]], "batchable", False)):
                     ins["bs"] = 2 if n > 2 else ins["bs"]
             mult = n + (3 if ins["bs"] and 1 < ins["bs"] < n else 0)
@@ -903,7 +1200,7 @@ class Gen:
             ins = {"op": "bround", "a": cur, "d": d, "bs": rng.choice([1, 2, 2, 3, n - 1, n, n + 1]), "name": f"batch.0.{d}"}
             if ins["bs"] < 1:
                 ins["bs"] = 1
-            if rng.random() < 0.6:
+            if self.sem or rng.random() < 0.6:
                 ins["n"] = rng.choice(NAMED)
             else:
                 ins["f"] = rng.choice(["r_bsum", "r_bmax", "r_wsum"])
@@ -915,7 +1212,7 @@ class Gen:
                 ins["kw"] = {"k": rng.choice([2, 3, -1])}
             return self.push(ins, ts + 1)
         if op == "binC":
-            f = rng.choice(["add", "subtract", "multiply", "divide", "pow"])
+            f = rng.choice(["add", "subtract", "multiply", "divide", "pow"] if not self.sem else ["add", "subtract", "multiply", "pow"])
             c = rng.choice([2, 3, 4]) if f != "pow" else 2
             if f == "divide":
                 c = rng.choice([2, 4])
@@ -948,7 +1245,7 @@ class Gen:
                 crit.append([k, v])
             if not crit:
                 return False
-            if op == "select" and r.scal and rng.random() < 0.3:
+            if op == "select" and r.scal and rng.random() < (0.6 if self.session else 0.3):
                 s = rng.choice(sorted(r.scal))
                 if not isinstance(r.scal[s], tuple):
                     crit.append([s, r.scal[s]])
@@ -957,33 +1254,46 @@ class Gen:
             ni = len(r.ishape)
             if ni == 0:
                 return False
-            iax = rng.randrange(ni)
+            # the internal dimension: by position from the front, by position from the back (negative), by name (xarray)
+            iax = rng.randrange(-ni, ni)
             m = r.ishape[iax]
+            internal = iax
+            if self.kind == "xarray" and rng.random() < 0.35:
+                internal = r.inames[iax % ni]
             name = self.newname()
-            ins = {"op": "expand", "a": cur, "name": name, "internal": iax, "axis": rng.choice([0, 0, 1, -1, r.nn])}
-            if rng.random() < 0.6:
+            ins = {"op": "expand", "a": cur, "name": name, "internal": internal, "axis": rng.randint(-(r.nn + 1), r.nn) if rng.random() < 0.6 else 0}
+            how = rng.random()
+            if how < 0.55:
                 ins["size"] = rng.choice([m, m, max(1, m - 1), 1])
                 nn = ins["size"]
-            else:
-                ins["idxs"] = rng.sample(range(m), rng.randint(1, m))
+            elif how < 0.9 or self.sem:
+                # explicit positions, also counted from the back
+                ins["idxs"] = [i - rng.choice([0, 0, m]) for i in rng.sample(range(m), rng.randint(1, m))]
                 ins["size"] = None
                 nn = len(ins["idxs"])
+            else:
+                # every new node takes a LIST of positions (the internal dimension stays)
+                k = rng.randint(1, m)
+                nn = rng.choice([1, 2, 3])
+                ins["idxs"] = [[rng.randrange(-m, m) for _ in range(k)] for _ in range(nn)]
+                ins["size"] = None
             if rng.random() < 0.4:
                 ins["vals"] = gen_coords(rng, nn, rng.choice(["str", "int10"]))
                 if bad:
                     self.made_bad = True
                     ins["vals"] = ins["vals"] + [99]
-            if ins["axis"] > r.nn:
-                ins["axis"] = 0
+            elif bad and rng.random() < 0.5:
+                self.made_bad = True
+                ins["internal"] = rng.choice([ni, -ni - 1])          # builds; fails when the graph runs
             return self.push(ins, ts + 1)
         if op == "transform":
             name = self.newname()
-            if rng.random() < 0.6 or not r.dims:
+            if (rng.random() < 0.6 and not self.sem) or not r.dims:
+                if self.sem:
+                    return False
                 ps = [rng.choice([2, 3, 5, -1]) for _ in range(rng.choice([1, 2, 3]))]
                 ins = {"op": "transform", "a": cur, "body": "map", "f": "t_scale", "params": ps, "name": name,
-                       "axis": rng.choice([0, 0, 1, -1]) if r.nn else 0}
-                if ins["axis"] > r.nn:
-                    ins["axis"] = 0
+                       "axis": rng.choice([0, rng.randint(-(r.nn + 1), r.nn)])}
             else:
                 d = rng.choice(r.dims)
                 labs = r.coords[d]
@@ -993,7 +1303,8 @@ class Gen:
                 if not once:
                     return False
                 ps = [rng.choice(once) for _ in range(rng.choice([2, 3]))]
-                ins = {"op": "transform", "a": cur, "body": "sel", "d": d, "params": ps, "name": name, "axis": rng.choice([0, 0, -1])}
+                ins = {"op": "transform", "a": cur, "body": "sel", "d": d, "params": ps, "name": name,
+                       "axis": rng.choice([0, rng.randint(-r.nn, r.nn - 1)])}
             if rng.random() < 0.5:
                 ins["vals"] = gen_coords(rng, len(ps), rng.choice(["str", "int10"]))
             return self.push(ins, ts + 1)
@@ -1003,10 +1314,10 @@ class Gen:
             if any(isinstance(l, tuple) for _, c in dims for l in c) or not all(r.indexed.values()) or r.ishape != tuple(self.ishape):
                 return False
             b = self.source(dims)
-            if rng.random() < 0.5:
+            if rng.random() < 0.5 and not self.sem:
                 self.push({"op": "map", "a": b, "f": "u_aff"}, 2)
                 b = len(self.refs) - 1
-            f = rng.choice(["add", "subtract", "multiply", "divide"])
+            f = rng.choice(["add", "subtract", "multiply", "divide"] if not self.sem else ["add", "subtract", "multiply"])
             return self.push({"op": "binA", "a": cur, "b": b, "f": f}, ts + self.tsz[b] + 1)
         if op == "join":
             if any(isinstance(l, tuple) for c in r.coords.values() for l in c) or not all(r.indexed.values()) or r.ishape != tuple(self.ishape):
@@ -1055,27 +1366,129 @@ class Gen:
         return False
 
 
-def gen_case(rng, seed, malformed=False, depth=None):
-    kind = "xarray" if rng.random() < 0.15 else "numpy"
-    g = Gen(rng, seed, kind, malformed)
-    g.source()
-    depth = depth or rng.choice([1, 2, 2, 3, 3, 4, 5])
-    tries = 0
-    nops = 0
+def finish(g, **extra):
+    case = {"seed": g.seed, "kind": g.kind, "prog": g.prog, **extra}
+    if any(isinstance(i, list) for ins in g.prog for i in (ins.get("idxs") or [])):
+        case["nocoq"] = True          # a list of positions per node is not a value of the model's `cv`: oracle only
+    return case
+
+
+def grow(g, depth, op=None, cur=None):
+    tries = nops = 0
     while nops < depth and tries < 40 and not g.bad_done:
         tries += 1
         before = len(g.prog)
-        if g.step():
+        nref = len(g.refs)
+        if g.step(op=op, cur=cur):
             nops += 1
-            cur = g.refs[-1]
-            ncell = int(np.prod(cur.data.shape[:cur.nn])) if cur.nn else 1
+            r = g.refs[-1]
+            ncell = int(np.prod(r.data.shape[:r.nn])) if r.nn else 1
             if g.tsz[-1] * ncell > 6000:
                 break
         else:
             del g.prog[before:]
-            del g.refs[before:]
-            del g.tsz[before:]
-    return {"seed": seed, "kind": kind, "prog": g.prog}
+            del g.refs[nref:]
+            del g.tsz[nref:]
+    return nops
+
+
+def gen_case(rng, seed, malformed=False, depth=None, sem=False):
+    kind = "xarray" if (rng.random() < 0.15 and not sem) else "numpy"
+    g = Gen(rng, seed, kind, malformed)
+    g.sem = sem
+    if sem:
+        g.ishape = list(rng.choice([s for s in ISHAPES if s]))
+    g.source()
+    grow(g, depth or rng.choice([1, 2, 2, 3, 3, 4, 5]))
+    return finish(g)
+
+
+SESSION_FAMILIES = {"numpy": ["stack", "stack", "flatten", "expand", "expand", "concat", "named", "mean", "std", "select", "iselect",
+                              "transform", "map", "reduce", "binC"],
+                    "xarray": ["expand", "expand", "named", "mean", "select", "iselect", "transform", "map", "binC"]}
+
+
+def gen_session(rng, seed):
+    """what a script does: ONE source action (and what was derived from it) used for several calls, mostly of the same
+    method with other arguments, options left to their defaults or kept in one object; every result is checked"""
+    kind = "xarray" if rng.random() < 0.12 else "numpy"
+    g = Gen(rng, seed, kind, False)
+    g.session = True
+    if kind == "numpy":
+        g.ishape = list(rng.choice([s for s in ISHAPES if len(s) >= 1]))
+    names = rng.sample(DIMNAMES, rng.choice([2, 2, 3]))
+    g.source([[n, gen_coords(rng, rng.choice([2, 2, 3, 4]))] for n in names])
+    fam = rng.choice(SESSION_FAMILIES[kind])
+    calls = rng.choice([2, 3, 3, 4])
+    for _ in range(calls):
+        if rng.random() < 0.25:
+            fam = rng.choice(SESSION_FAMILIES[kind])
+        # the operand: the source again, or the result of the previous call (a.stack(..).stack(..))
+        cur = 0 if rng.random() < 0.55 else len(g.refs) - 1
+        if len(g.prog) > 2 and rng.random() < 0.3 and g.again(rng.randrange(len(g.refs))):
+            continue
+        if not grow(g, 1, op=fam, cur=cur):
+            grow(g, 1, op=fam, cur=0)
+    return finish(g, session=True)
+
+
+def pair_sessions(seed):
+    """small exhaustive scope: the same method called twice on the same source with two DIFFERENT values of one
+    argument (all ordered pairs), everything else left to its default"""
+    out = []
+    dims = [["x", [10, 11]], ["y", ["a", "b", "c"]]]
+
+    def case(ishape, calls):
+        prog = [{"op": "source", "dims": dims, "base": 0, "ishape": list(ishape)}]
+        for c in calls:
+            prog.append({"a": 0, "omit": True, "kwm": "default", **c})
+        out.append({"seed": seed, "kind": "numpy", "prog": prog, "session": True, "pair": True})
+    for ishape in ((2, 4), (3, 3), (2, 2, 2)):
+        ni = len(ishape)
+        axes = list(range(-(ni + 1), ni + 1))
+        for a1 in axes:
+            for a2 in axes:
+                if a1 % (ni + 1) != a2 % (ni + 1):
+                    case(ishape, [{"op": "stack", "d": "x", "bs": 0, "keep": False, "axis": a1},
+                                  {"op": "stack", "d": "y" if (a1 + a2) % 2 else "x", "bs": 0, "keep": False, "axis": a2}])
+                    case(ishape, [{"op": "flatten", "d": "x", "axis": a1}, {"op": "flatten", "d": "", "axis": a2}])
+        for i1 in range(-ni, ni):
+            for i2 in range(-ni, ni):
+                if i1 != i2:
+                    case(ishape, [{"op": "expand", "name": "e1", "internal": i1, "size": ishape[i1], "idxs": None, "axis": 0},
+                                  {"op": "expand", "name": "e2", "internal": i2, "size": ishape[i2], "idxs": None, "axis": -1}])
+    for ishape in ((2, 3), (2,)):
+        for n1 in NAMED + ["mean"]:
+            for d1, d2, k1, k2 in (("x", "y", False, True), ("y", "x", True, False), ("", "y", False, False)):
+                o = "named" if n1 in NAMED else n1
+                case(ishape, [{"op": o, "n": n1, "d": d1, "bs": 0, "keep": k1}, {"op": o, "n": n1, "d": d2, "bs": 2, "keep": k2}])
+        case(ishape, [{"op": "concat", "d": "x", "bs": 0, "keep": False}, {"op": "concat", "d": "y", "bs": 2, "keep": True}])
+    # ONE options object written once and used for two calls on different operands (a script's `opts = {...}`):
+    # selection criteria (one key names a scalar coordinate of the first operand, a dimension of the second),
+    # backend_kwargs of a reduction / stack / expand, a Payload
+    src = {"op": "source", "dims": dims, "base": 0, "ishape": [2, 3]}
+    for op, first, crit in (("select", [["x", 10]], [["y", "b"], ["x", 10]]), ("select", [["y", "c"]], [["x", 11], ["y", "c"]]),
+                            ("iselect", [["x", 1]], [["y", [0, 2]]]), ("iselect", [["y", 0]], [["y", 0]])):
+        for opnd in ((1, 0), (0, 1)):
+            prog = [src, {"op": "select" if op == "select" else "iselect", "a": 0, "crit": first, "drop": False},
+                    {"op": op, "a": opnd[0], "crit": crit, "drop": False, "kwm": "shared"},
+                    {"op": op, "a": opnd[1], "crit": crit, "drop": False, "kwm": "shared"}]
+            if op == "iselect" and first == [["y", 0]]:
+                prog[1] = {"op": "iselect", "a": 0, "crit": [["x", 0]], "drop": True}
+            out.append({"seed": seed, "kind": "numpy", "prog": prog, "session": True, "pair": True, "reuse": True})
+    for c1, c2 in (({"op": "stack", "d": "x", "bs": 0, "keep": False, "axis": 1}, {"op": "stack", "d": "y", "bs": 0, "keep": False, "axis": -1}),
+                   ({"op": "stack", "d": "y", "bs": 0, "keep": False, "axis": 0}, {"op": "expand", "name": "e", "internal": -1, "size": 3, "idxs": None, "axis": 0}),
+                   ({"op": "expand", "name": "e", "internal": 1, "size": 3, "idxs": None, "axis": 0}, {"op": "flatten", "d": "x", "axis": 2}),
+                   ({"op": "named", "n": "sum", "d": "x", "bs": 0, "keep": False}, {"op": "stack", "d": "y", "bs": 0, "keep": False, "axis": 1}),
+                   ({"op": "mean", "d": "y", "bs": 2, "keep": False}, {"op": "named", "n": "max", "d": "y", "bs": 2, "keep": True}),
+                   ({"op": "concat", "d": "x", "bs": 0, "keep": False}, {"op": "stack", "d": "x", "bs": 0, "keep": False, "axis": 2}),
+                   ({"op": "map", "f": "u_scale", "kw": {"k": 3}}, {"op": "map", "f": "u_scale", "kw": {"k": 3}}),
+                   ({"op": "reduce", "f": "r_wsum", "d": "x", "bs": 0, "keep": False}, {"op": "reduce", "f": "r_wsum", "d": "y", "bs": 0, "keep": True})):
+        for x, y in ((c1, c2), (c2, c1)):
+            prog = [src, {"a": 0, "kwm": "shared", **x}, {"a": 0, "kwm": "shared", **y},
+                    {"a": 1 if x["op"] == "map" else 0, "kwm": "shared", **x, **({"name": "e9"} if "name" in x else {})}]
+            out.append({"seed": seed, "kind": "numpy", "prog": prog, "session": True, "pair": True, "reuse": True})
+    return out
 
 
 def sweep_cases(seed):
@@ -1111,19 +1524,23 @@ def signature(fail, case):
     """failure class: what went wrong and in which operation (callers pass the shortest failing prefix)"""
     kind = fail[0]
     last = case["prog"][-1] if case["prog"] else {"op": "none"}
-    if kind == "raises" and len(fail) > 2:
-        last = case["prog"][fail[2]]
+    if len(fail) > 2 and 0 <= fail[2] < len(case["prog"]):
+        last = case["prog"][fail[2]]          # the instruction whose result is wrong / that raised
     extra = ""
     if 1 < last.get("bs", 0):
         extra += "+batch"
     if last.get("keep"):
         extra += "+keep_dim"
+    if last.get("kwm") == "shared":
+        extra += "+reused-options-object"
     return f"{kind}:{last['op']}{extra}"
 
 
 # ----------------------------------------------------------------------------- driver
-def run_cases(ctx, res, cases, tag, check_corr=True):
-    terms, metas = [], []
+def run_cases(ctx, res, cases, tag, check_corr=True, sink=None):
+    """oracle on every case now; the Coq terms go to `sink` (one Coq run for all streams, see flush_coq)"""
+    own = sink is None
+    sink = [] if sink is None else sink
     for case in cases:
         res.evaluations += 1
         try:
@@ -1131,11 +1548,24 @@ def run_cases(ctx, res, cases, tag, check_corr=True):
         except ValueError as e:
             res.disagree(f"harness cannot canonicalise the observation: {e}"[:300], case)
             continue
+        for w in out.get("leaked") or []:
+            res.count(f"state:default-argument-changed-by-an-earlier-case:{w}")
         ops = [i["op"] for i in case["prog"] if i["op"] != "source"]
         for o in ops:
             res.count(f"{tag}:op:{o}")
+        for i in case["prog"]:
+            if i.get("omit"):
+                res.count(f"{tag}:call-with-defaults-left-out")
+            if i.get("kwm") in ("default", "shared"):
+                res.count(f"{tag}:options-object:{i['kwm']}")
+            if i["op"] == "expand":
+                it = i["internal"]
+                res.count(f"{tag}:expand-internal:{'name' if isinstance(it, str) else 'negative' if it < 0 else 'non-negative'}")
+            if i["op"] in ("stack", "flatten") and i.get("axis", 0) < 0:
+                res.count(f"{tag}:{i['op']}-axis-negative")
         batched = any(1 < i.get("bs", 0) for i in case["prog"])
         res.count(f"{tag}:{'valid' if out['ref_ok'] else 'malformed'}:{case.get('kind')}")
+        res.count(f"{tag}:internal-ndim:{len([i for i in case['prog'] if i['op'] == 'source'][0]['ishape'])}")
         if batched:
             res.count(f"{tag}:with-batch-size>1")
         if out["err"] is not None:
@@ -1146,76 +1576,146 @@ def run_cases(ctx, res, cases, tag, check_corr=True):
             continue
         if ops and (len(ops) >= 2 or batched):
             res.nontrivial_keys.add(case_key(case))
-        if len(res.samples) < 4 and len(ops) >= 2 and out["obs"] is not None:
+        if len(res.samples) < 4 and len(ops) >= 2 and out["obs"] is not None and out["obs"]["cells"] is not None:
             res.samples.append({"prog": case["prog"], "dims": [d[0] for d in out["obs"]["dims"]], "cells": len(out["obs"]["cells"]), "graph_nodes": len(out["obs"]["table"])})
         if check_corr:
-            if out["obs"] is not None and tree_size(out["obs"]["table"], out["obs"]["cells"]) > 40000:
+            if case.get("nocoq"):
+                res.count(f"{tag}:oracle-only(list-of-positions-per-node)")
+                continue
+            big = [o for _, o in (out.get("all_obs") or [])] + ([out["obs"]] if out["obs"] is not None else [])
+            if any(tree_size(o["table"], o["cells"]) > 40000 for o in big):
                 res.count(f"{tag}:skipped-in-coq-too-large")
                 continue
             try:
-                terms.append(ccase(case, out))
-                metas.append((case, out))
+                sink.append((ccase(case, out), case, out, "structure"))
+                v = out.get("values")
+                if v is not None:
+                    if v[0] == "inexact":
+                        res.count(f"{tag}:values-not-exact-integers(structure-only)")
+                    else:
+                        sink.append((cvalcase(case, v), case, out, "values"))
+                        res.count(f"{tag}:values-compared-in-coq:{v[0]}")
             except ValueError as e:
                 res.disagree(f"harness cannot express the case in Coq: {e}"[:300], case)
-    if terms:
-        results, logs = coq_results("C13", HEADER, terms, "check_case", shard=ctx.n(60, 150), tag=tag)
-        res.corr_checked += len(results)
-        for r, (case, out) in zip(results, metas):
-            if r is not True:
+    if own:
+        flush_coq(ctx, res, sink, tag)
+
+
+def flush_coq(ctx, res, sink, tag="all"):
+    if not sink:
+        return
+    # one wave of the (at most 8) parallel coqc: loading the libraries costs more than a few dozen cases
+    shard = ctx.n(max(60, min(160, -(-len(sink) // 8))), 150)
+    results, logs = coq_results("C13", HEADER, [t for t, _, _, _ in sink], "check_any", shard=shard, tag=tag)
+    res.corr_checked += len(results)
+    for r, (_, case, out, what_kind) in zip(results, sink):
+        if r is not True:
+            if what_kind == "values":
+                what = "Coq semantics of the graph (Fluent/ActionSem.v: take/stack/concat/reductions/arithmetic on exact arrays) gives other VALUES than evaluating the real graph"
+            else:
                 what = "Coq model of fluent.Action disagrees with the implementation"
-                if r is None:
-                    what += " (cases file did not compile: " + (logs[0][-300:] if logs else "") + ")"
-                else:
-                    try:
-                        prog = clist([cinstr(i) for i in case["prog"]])
+            if r is None:
+                what += " (cases file did not compile: " + (logs[0][-300:] if logs else "") + ")"
+            else:
+                try:
+                    prog = clist([cinstr(i) for i in case["prog"]])
+                    if what_kind == "values":
+                        v = out["values"]
+                        m = coq_print("C13", HEADER, f"model_values {prog} {csources(case)}")
+                        what += f": implementation {('raised ' + v[2] + ' at cell ' + str(v[1])) if v[0] == 'raises' else 'gave ' + str(v[1])[:200]}, model says {' '.join(m.split())[-300:]}"
+                    else:
                         m = coq_print("C13", HEADER, f"model_error {prog}")
                         what += f": implementation {'raised ' + out['err'] if out['err'] else 'returned an array'}, model says {m.strip()[-80:]}"
-                    except Exception:
-                        pass
-                res.disagree(what, case)
-                break
+                except Exception:
+                    pass
+            res.disagree(what, case)
+            break
+
+
+def gen_sem(rng, seed, malformed=False):
+    case = gen_case(rng, seed, malformed=malformed, sem=True, depth=rng.choice([1, 2, 2, 3, 3, 4]))
+    case["sem"] = True
+    return case
 
 
 def run(ctx, res):
-    res.rule = ("a case is one fluent program (SSA list of operations over from_source arrays, 1-3 dims, internal arrays of 1-2 dims) "
+    res.rule = ("a case is one fluent program (SSA list of operations over from_source arrays, 1-3 dims, internal arrays of 0-3 dims; "
+                "in a session: several calls on the same objects, every result checked) "
                 "run on the real API, on the NumPy reference and inside Coq; distinct_nontrivial counts distinct programs with >= 2 operations "
                 "after the sources or a batch size > 1")
     from common import load_corpus
     corpus = [c.get("case") for _, c in load_corpus("C13") if isinstance(c.get("case"), dict) and "prog" in c.get("case", {})]
     if corpus:
         run_cases(ctx, res, corpus, "corpus", check_corr=False)
+    sink = []
     rng = ctx.sub_rng("sweep")
     sw = sweep_cases(ctx.seed)
     if ctx.tier != "thorough":
-        sw = rng.sample(sw, 220)
-    run_cases(ctx, res, sw, "sweep")
+        sw = rng.sample(sw, 200)
+    run_cases(ctx, res, sw, "sweep", sink=sink)
     rng = ctx.sub_rng("programs")
-    progs = [gen_case(rng, ctx.seed * 1000 + i) for i in range(ctx.n(340, 9000))]
-    run_cases(ctx, res, progs, "prog")
+    progs = [gen_case(rng, ctx.seed * 1000 + i) for i in range(ctx.n(320, 9000))]
+    run_cases(ctx, res, progs, "prog", sink=sink)
     rng = ctx.sub_rng("malformed")
     bad = [gen_case(rng, ctx.seed * 1000 + i, malformed=True) for i in range(ctx.n(60, 1500))]
-    run_cases(ctx, res, bad, "bad")
+    run_cases(ctx, res, bad, "bad", sink=sink)
+    # several calls on the same objects in one process, defaults left out, options objects shared
+    rng = ctx.sub_rng("sessions")
+    ses = [gen_session(rng, ctx.seed * 1000 + i) for i in range(ctx.n(110, 3000))]
+    run_cases(ctx, res, ses, "session", sink=sink)
+    pairs = pair_sessions(ctx.seed)
+    if ctx.tier != "thorough":
+        pairs = [c for c in pairs if c.get("reuse")] + rng.sample([c for c in pairs if not c.get("reuse")], 36)
+    run_cases(ctx, res, pairs, "pair", sink=sink)
+    # values, not only wiring: programs of backend functions, evaluated inside Coq on the same integer arrays
+    rng = ctx.sub_rng("sem")
+    sem = [gen_sem(rng, ctx.seed * 1000 + i, malformed=(i % 8 == 7)) for i in range(ctx.n(110, 3000))]
+    run_cases(ctx, res, sem, "sem", sink=sink)
+    flush_coq(ctx, res, sink)
+    if LEAKS:
+        ctx.notes.append("mutable default arguments changed by calls (reset before every case): " + ", ".join(f"{k} x{v}" for k, v in sorted(LEAKS.items())))
 
 
 def search(ctx, res):
-    """enlarged search after a broken proof / correspondence: the full batching sweep and many more programs, oracle only"""
+    """enlarged search after a broken proof / correspondence: the full batching sweep, all pair sessions and many more programs, oracle only"""
     from common import Result
     r2 = Result()
     ctx2 = type(ctx)(ctx.pid, "thorough", ctx.seed + 1)
     run_cases(ctx2, r2, sweep_cases(ctx.seed + 1), "search-sweep", check_corr=False)
     if not r2.failures:
+        run_cases(ctx2, r2, pair_sessions(ctx.seed + 1), "search-pairs", check_corr=False)
+    if not r2.failures:
         rng = ctx2.sub_rng("search")
-        run_cases(ctx2, r2, [gen_case(rng, 777000 + i) for i in range(4000)], "search", check_corr=False)
+        run_cases(ctx2, r2, [gen_session(rng, 778000 + i) for i in range(1500)], "search-session", check_corr=False)
+    if not r2.failures:
+        rng = ctx2.sub_rng("search")
+        run_cases(ctx2, r2, [gen_case(rng, 777000 + i) for i in range(3000)], "search", check_corr=False)
     if r2.failures:
         return shrink(ctx, r2.failures[0])
     return None
 
 
+def without(prog, j):
+    """the program with instruction j removed (None if a later instruction uses its result)"""
+    if any(i.get("a") == j or i.get("b") == j for i in prog[j + 1:]):
+        return None
+    out = []
+    for k, i in enumerate(prog):
+        if k == j:
+            continue
+        i = dict(i)
+        for key in ("a", "b"):
+            if key in i and i[key] > j:
+                i[key] -= 1
+        out.append(i)
+    return out
+
+
 def shrink(ctx, f):
-    """drop trailing/unused instructions and lower sizes while the same signature fails"""
+    """shortest failing prefix, then drop every instruction the failure does not need (same signature)"""
     case = f["case"]
     sig = f["signature"]
-    best = case
+    best = None
     for cut in range(1, len(case["prog"]) + 1):
         c2 = {**case, "prog": case["prog"][:cut]}
         try:
@@ -1223,8 +1723,23 @@ def shrink(ctx, f):
         except Exception:
             continue
         if out["fail"] is not None:
-            return {"signature": signature(out["fail"], c2), "what": out["fail"][1], "case": c2}
-    return {"signature": sig, "what": f["what"], "case": best}
+            best = {"signature": signature(out["fail"], c2), "what": out["fail"][1], "case": c2}
+            break
+    if best is None:
+        return {"signature": sig, "what": f["what"], "case": case}
+    j = len(best["case"]["prog"]) - 1
+    while j >= 0:
+        p2 = without(best["case"]["prog"], j)
+        if p2:
+            c2 = {**best["case"], "prog": p2}
+            try:
+                out = run_case(c2)
+            except Exception:
+                out = None
+            if out and out["fail"] is not None and signature(out["fail"], c2) == best["signature"]:
+                best = {"signature": best["signature"], "what": out["fail"][1], "case": c2}
+        j -= 1
+    return best
 
 
 def replay(ctx, case):
